@@ -19,7 +19,9 @@ from usim.py.exceptions import Interrupt
 
 from ..engine import EQ, NE, GE, LE, LT, GT, AND, OR, NOT, IMPLIES, MAX, MIN, SNum
 from ..explore import Family
-from ..kit import Log, simulate, classify_run_exception, UserErr, now
+from ..kit import Log, simulate, classify_run_exception, UserErr, now, Payload
+
+PROC_RESULT = Payload(('proc-result', 0))    # falsy return value of a process
 
 BOUNDS = ('dates / delays in [0,15]; event family: 2 (thorough 3) waiters of kind process / '
           'native activity, trigger succeed / fail, second trigger; composite: 3 timeouts; '
@@ -42,7 +44,7 @@ def fam_event(E, nwait, real=False):
     log = Log()
     env = Environment()
     ev = env.event()
-    value = object()
+    value = Payload(('value', 0))      # falsy: a value must never be judged by its truth
     err = UserErr('event failed')
     calls = []
     ev.callbacks.append(lambda e: calls.append(('cb1', e)))
@@ -362,7 +364,7 @@ def fam_until(E, mode, real=False):
     p2 = E.num('p2', 1, 10, real=real)
     log = Log()
     env = Environment()
-    value = object()
+    value = Payload(('value', 0))      # falsy: a value must never be judged by its truth
     err = UserErr('failed')
     ev = env.event()
 
@@ -427,7 +429,7 @@ def fam_embedded(E, real=False):
     w = E.num('w', 0, 15, real=real)
     start = E.num('start', 0, 10, real=real)      # the environment is entered at this date
     log = Log()
-    value = object()
+    value = Payload(('value', 0))      # falsy: a value must never be judged by its truth
     S = {}
 
     async def coro_result():
@@ -443,7 +445,7 @@ def fam_embedded(E, real=False):
         yield env.timeout(u)
         S['ev'].succeed(value)
         log('p', 'fired')
-        return 'proc-result'
+        return PROC_RESULT
 
     async def native(env):
         await (time + w)
@@ -484,7 +486,7 @@ def fam_embedded(E, real=False):
         fire = start + d + d + u
         E.prove(EQ(n1[2], MAX(start + w, fire)) and n1[3] is True,
                 'activity-receives-event-value-at-trigger-time')
-        E.prove(EQ(n2[2], MAX(start + w, fire)) and n2[3] == 'proc-result',
+        E.prove(EQ(n2[2], MAX(start + w, fire)) and n2[3] is PROC_RESULT,
                 'activity-receives-process-return-value')
     pf = log.first('pre', 'fired')
     E.prove(pf is not None and EQ(pf[2], start + u) and pf[3] is True,
